@@ -150,8 +150,9 @@ def st_rigid():
     return st.tuples(rot, shift.map(lambda t: np.array(t)))
 
 
-def st_mini(files, max_extra=4):
-    """(file, residue indices, per-residue small rigid perturbations)"""
+def st_mini(files, max_extra=4, split=False):
+    """(file, residue indices, per-residue small rigid perturbations); split=True may also cut a residue's records
+    into two non-adjacent blocks (see split_fragments)"""
     from hypothesis import strategies as st
 
     @st.composite
@@ -194,7 +195,15 @@ def st_mini(files, max_extra=4):
             how = draw(st.sampled_from([None] * 9 + ["base+C1'", "no-phosphate", "base+sugar-ring"]))
             if how:
                 strip.append([slot, how])
-        return {"kind": "mini", "file": fn, "residues": idx, "moves": moves, "drop": drops, "relabel": relabel, "strip": strip}
+        case = {"kind": "mini", "file": fn, "residues": idx, "moves": moves, "drop": drops, "relabel": relabel, "strip": strip}
+        if split:
+            cuts = []
+            for slot in range(len(idx)):
+                how = draw(st.sampled_from([None] * 3 + ["base-later", "backbone-later", "sugar-later"]))
+                if how:
+                    cuts.append([slot, how, draw(st.sampled_from(["end", "next"]))])
+            case["split"] = cuts
+        return case
 
     return build()
 
@@ -237,7 +246,52 @@ def build_mini(case):
             return name not in PHOSPHATE and name not in ("C5'", "O5'", "O3'", "O2'")
         return True
 
-    return rebuild(s3, keep=set(idx), point_fn=pf, atom_keep=ak if (dropped or stripped) else None, ident_fn=mini_ident_fn(case.get("relabel"), idx))
+    out = rebuild(s3, keep=set(idx), point_fn=pf, atom_keep=ak if (dropped or stripped) else None, ident_fn=mini_ident_fn(case.get("relabel"), idx))
+    if case.get("split"):
+        out = split_fragments(out, case["split"])
+    return out
+
+
+def split_fragments(s3, cuts):
+    """the records of a residue cut into two NON-ADJACENT blocks (rebuilt bases appended after the chain, 'backbone
+    first, bases later' files, atom_site rows sorted by something other than residue): the library's parser groups
+    consecutive records only, so such a file arrives as two Residue3D fragments carrying one identity - which is what
+    this builds. cuts: [slot, which part moves, where to]"""
+    from rnapolis.tertiary import Residue3D, Structure3D
+
+    PHOSPHATE = {"P", "OP1", "OP2", "OP3", "O1P", "O2P", "O3P"}
+    SUGAR = {"C1'", "C2'", "C3'", "C4'", "C5'", "O2'", "O3'", "O4'", "O5'"}
+    residues = list(s3.residues)
+    plan = {}
+    for slot, how, where in cuts:
+        plan[slot % len(residues)] = (how, where)
+    first, later_next, later_end = [], {}, []
+    for k, r in enumerate(residues):
+        if k not in plan:
+            first.append((k, r))
+            continue
+        how, where = plan[k]
+        if how == "base-later":
+            moved = [a for a in r.atoms if a.name not in PHOSPHATE and a.name not in SUGAR]
+        elif how == "backbone-later":
+            moved = [a for a in r.atoms if a.name in PHOSPHATE or a.name in SUGAR]
+        else:
+            moved = [a for a in r.atoms if a.name in SUGAR]
+        stay = [a for a in r.atoms if a not in moved]
+        if not moved or not stay:
+            first.append((k, r))
+            continue
+        first.append((k, Residue3D(r.label, r.auth, r.model, r.one_letter_name, tuple(stay))))
+        frag = Residue3D(r.label, r.auth, r.model, r.one_letter_name, tuple(moved))
+        if where == "next" and k + 1 < len(residues):
+            later_next[k + 1] = later_next.get(k + 1, []) + [frag]
+        else:
+            later_end.append(frag)
+    out = []
+    for k, r in first:
+        out.append(r)
+        out += later_next.get(k, [])
+    return Structure3D(out + later_end)
 
 
 def mini_ident_fn(relabel, idx):
@@ -537,3 +591,46 @@ def _translated_copy(s3, ref, case):
     r2 = Residue3D(None, auth, r.model, r.one_letter_name, tuple(atoms))
     first = Residue3D(r.label, r.auth, r.model, r.one_letter_name, r.atoms)
     return Structure3D([first, r2] if case["first_is_reference"] else [r2, first])
+
+
+# ---------------------------------------------------------------------------
+# crowded placements: several slightly perturbed copies of a short run of residues written as separate chains of ONE
+# model (superimposed conformers / docking poses / merged ensembles): a base then has many more base centroids within
+# the stacking distance than any physically spaced structure offers
+
+
+def st_crowd(files):
+    from hypothesis import strategies as st
+
+    move = st.tuples(st.lists(st.floats(-1, 1), min_size=3, max_size=3), st.floats(-12, 12),
+                     st.lists(st.floats(-0.9, 0.9), min_size=3, max_size=3)).map(list)
+    return st.fixed_dictionaries({"kind": st.just("crowd"), "file": st.sampled_from(files), "start": st.integers(0, 10 ** 6),
+                                  "run": st.integers(1, 3), "moves": st.lists(move, min_size=2, max_size=16)})
+
+
+def build_crowd(case):
+    from rnapolis.tertiary import Structure3D
+
+    s3 = corpus.structure(case["file"])
+    idx = complete_bases(case["file"])
+    if not idx:
+        raise ValueError("no complete bases in " + case["file"])
+    k0 = case["start"] % len(idx)
+    run = idx[k0:k0 + case["run"]]
+    pts = np.array([[a.x, a.y, a.z] for ri in run for a in s3.residues[ri].atoms])
+    centre = pts.mean(axis=0)
+    chains = "ABCDEFGHIJKLMNOPQRSTUVWXYZ"
+    residues = []
+    placed = []
+    for c, (axis, ang, tr) in enumerate(case["moves"]):
+        R = small_rotation(axis, ang) if c else np.eye(3)
+        t = np.array(tr) if c else np.zeros(3)
+        # two distinct residues never occupy the same place: a copy displaced by less than 0.05 A from an earlier one
+        # is left out (the library keys its look-up tables by coordinates, exact coincidence is outside its domain)
+        if any(float(np.linalg.norm(t - q)) < 0.05 for q in placed):
+            continue
+        placed.append(t)
+        part = rebuild(s3, keep=set(run), point_fn=lambda xyz, ri, k, R=R, t=t: R @ (xyz - centre) + centre + t,
+                       ident_fn=lambda ri, chain, number, c=c: (chains[c], number))
+        residues += list(part.residues)
+    return Structure3D(residues)
